@@ -718,9 +718,11 @@ PROPS["C01"] = {
     "theorems": ["WhatIs.C01.ssh1_guards_in_force", "WhatIs.C01.candidates_total", "WhatIs.C01.inspect_returns_description",
                  "WhatIs.C01.b64_no_panic", "WhatIs.C01.curve_match_total", "WhatIs.C01.ssh1_no_panic",
                  "WhatIs.C01.ssh1_panic_witness", "WhatIs.C01.ssh1_behind_magic", "WhatIs.C01.asn1_recursion_terminates",
+                 "WhatIs.C01.openssh_guards_in_force", "WhatIs.C01.openssh_no_panic", "WhatIs.C01.openssh_panic_witness",
                  "WhatIs.C01.one_report_per_file"],
     "facts": {"scan.panics": SCAN_PANICS, "ssh1.checksBlocks": True, "ssh1.boundsMPInt": True, "ssh1.boundsString": True,
               "rpm.prechecked": True, "jks.prechecked": True, "b64.panicOnDecodeError": False,
+              "openssh.kdfOptsLengthGuard": True, "openssh.kdfOptsWideSum": True,
               "filetypes.patternWithInnerStar": False, "rpm.uncheckedAccessorCalls": []},
     "nontrivial": nt_c01,
     "gen_timeout": 3000,
@@ -758,9 +760,12 @@ PROPS["C08"] = {
     "theorems": ["WhatIs.C08.limits_in_force", "WhatIs.C08.read_capped", "WhatIs.C08.read_complete", "WhatIs.C08.cap_value",
                  "WhatIs.C08.ssh1_allocs_bounded", "WhatIs.C08.ssh1_alloc_total", "WhatIs.C08.unbounded_witness",
                  "WhatIs.C08.b64_decoded_bounded", "WhatIs.C08.asn1_nodes_bounded", "WhatIs.C08.asn1_depth_bounded",
-                 "WhatIs.C08.rpm_header_bounded", "WhatIs.C08.rpm_refused", "WhatIs.C08.rpm_overlap_witness"],
+                 "WhatIs.C08.rpm_header_bounded", "WhatIs.C08.rpm_refused", "WhatIs.C08.rpm_overlap_witness",
+                 "WhatIs.C08.jks_stops_on_truncation", "WhatIs.C08.jks_field_within", "WhatIs.C08.jks_walk_steps_bounded",
+                 "WhatIs.C08.jks_stuck_witness"],
     "facts": {"scan.makes": SCAN_MAKES, "limits.maxReadSize": 128000000, "limits.inspectReadsThroughLimit": True,
-              "ssh1.boundsMPInt": True, "ssh1.boundsString": True, "rpm.prechecked": True, "jks.prechecked": True},
+              "ssh1.boundsMPInt": True, "ssh1.boundsString": True, "rpm.prechecked": True, "jks.prechecked": True,
+              "jks.stopsOnTruncation": True},
     "nontrivial": nt_c01,
     "gen_timeout": 3000,
     "rule": "the hostile inputs of C01 plus inputs of 1 KiB, 64 KiB and 1 MiB of every content class whose cost could grow faster than "
